@@ -148,3 +148,311 @@ Proof.
   apply returns_bind; [apply cdr_returns|]. intros sr3.
   apply returns_bind; [apply build_rules_returns|]. auto.
 Qed.
+
+(* ======================================================================
+   Part 2: the matcher on the supported fragment S_match
+   ====================================================================== *)
+Lemma elems_new_list : forall l, elems (new_list l) = l.
+Proof. unfold new_list. induction l; simpl; congruence. Qed.
+
+Lemma new_list_elems : forall u, last_cdr u = CNil -> new_list (elems u) = u.
+Proof.
+  unfold new_list. induction u; simpl; intros H; try discriminate; auto.
+  rewrite IHu2; auto.
+Qed.
+
+Lemma chain_len_new_list : forall l, chain_len (new_list l) = length l.
+Proof. unfold new_list. induction l; simpl; congruence. Qed.
+
+Lemma split_chain_new_list : forall n l, (n <= length l)%nat ->
+  split_chain n (new_list l) = Some (firstn n l, new_list (skipn n l)).
+Proof.
+  unfold new_list. induction n; intros l Hn; simpl; auto.
+  destruct l; simpl in *; [lia|].
+  rewrite IHn by lia. reflexivity.
+Qed.
+
+Lemma is_list_last : forall u, is_list u = true -> last_cdr u = CNil.
+Proof.
+  unfold is_list. intros u H. apply andb_prop in H. destruct H as [_ H].
+  destruct (last_cdr u); simpl in H; try discriminate. reflexivity.
+Qed.
+
+Lemma cell_eqb_sym_refl : forall c, is_symbol c = true -> cell_eqb c c = true.
+Proof.
+  destruct c; simpl; try discriminate. intros _. unfold text_eqb.
+  destruct (list_eq_dec N.eq_dec s s); congruence.
+Qed.
+
+Lemma cell_eqb_nil : forall f, cell_eqb CNil f = true -> f = CNil.
+Proof. destruct f; simpl; intros; try discriminate; auto. Qed.
+
+Lemma cell_size_ind : forall (P : cell -> Prop),
+  (forall p, (forall q, (cell_size q < cell_size p)%nat -> P q) -> P p) -> forall p, P p.
+Proof.
+  intros P H p. remember (cell_size p) as n eqn:E. revert p E.
+  induction n as [n IH] using lt_wf_ind. intros p E. apply H. intros q Hq. eapply IH; [|reflexivity]. lia.
+Qed.
+
+Section MatchProofs.
+Variable lits : list cell.
+Variable ell : cell.
+Hypothesis Hell : is_symbol ell = true.
+
+Notation smatch' := (smatch lits ell).
+Notation pm_loop' := (pm_loop lits ell).
+
+Definition res (env : bindings) (o : option senv) : out (option bindings) :=
+  Ok (option_map (fun se => env ++ flat se) o).
+
+Lemma ell_refl : cell_eqb ell ell = true.
+Proof. apply cell_eqb_sym_refl; exact Hell. Qed.
+
+(* ---- equations of the specification matcher on list patterns *)
+Lemma smatch_plain : forall a d f, starts_with_ell ell d = false ->
+  smatch' (CPair a d) f =
+  match f with CPair f1 fr => opt_app (smatch' a f1) (smatch' d fr) | _ => None end.
+Proof.
+  intros a d f H. destruct d; try reflexivity.
+  simpl in H. cbn [smatch]. unfold s_is_ell in *. rewrite H. reflexivity.
+Qed.
+
+Lemma smatch_ell : forall a e d' f, s_is_ell ell e = true ->
+  smatch' (CPair a (CPair e d')) f =
+  let k := chain_len d' in
+  let n := chain_len f in
+  if Nat.ltb n k then None else
+  match split_chain (n - k) f with
+  | Some (items, frest) =>
+      match all_some (map (smatch' a) items) with
+      | Some ms => opt_app (Some (collect (pvars lits ell a) ms)) (smatch' d' frest)
+      | None => None
+      end
+  | None => None
+  end.
+Proof. intros a e d' f H. cbn [smatch]. rewrite H. reflexivity. Qed.
+
+(* ---- what pat_ok gives *)
+Definition elem_ok (a : cell) : bool :=
+  match a with
+  | CPair _ _ => pat_ok lits ell false a
+  | CVec _ => false
+  | CSym _ => negb (s_is_ell ell a)
+  | _ => true
+  end.
+
+Lemma pat_ok_plain : forall seen a d, starts_with_ell ell d = false ->
+  pat_ok lits ell seen (CPair a d) = true -> elem_ok a = true /\ pat_ok lits ell seen d = true.
+Proof.
+  intros seen a d Hs H. cbn [pat_ok] in H. apply andb_prop in H. destruct H as [Ha Hd].
+  split; [exact Ha|].
+  destruct d; auto. simpl in Hs. unfold s_is_ell in *. rewrite Hs in Hd. exact Hd.
+Qed.
+
+Lemma pat_ok_ell : forall seen a e d', s_is_ell ell e = true ->
+  pat_ok lits ell seen (CPair a (CPair e d')) = true ->
+  seen = false /\ f_is_var lits ell a = true /\ pat_ok lits ell true d' = true.
+Proof.
+  intros seen a e d' He H. cbn [pat_ok] in H. apply andb_prop in H. destruct H as [_ H].
+  rewrite He in H. apply andb_prop in H. destruct H as [H H3]. apply andb_prop in H. destruct H as [H1 H2].
+  destruct seen; simpl in H1; try discriminate. auto.
+Qed.
+
+Lemma is_ell_sym : forall c, s_is_ell ell c = true -> is_symbol c = true.
+Proof.
+  unfold s_is_ell. intros c H. destruct ell; try discriminate Hell.
+  destruct c; simpl in H; try discriminate; reflexivity.
+Qed.
+
+(* with [seen] the tail has no ellipsis at all *)
+Lemma pat_ok_true_no_ell : forall d, pat_ok lits ell true d = true -> starts_with_ell ell d = false.
+Proof.
+  intros d H. destruct d; auto. simpl.
+  destruct (s_is_ell ell d1) eqn:E; auto.
+  cbn [pat_ok] in H. apply andb_prop in H. destruct H as [Ha _].
+  pose proof (is_ell_sym _ E) as Hs.
+  destruct d1; simpl in Hs; try discriminate.
+  rewrite E in Ha. discriminate.
+Qed.
+
+Lemma pat_ok_proper : forall p seen, pat_ok lits ell seen p = true -> last_cdr p = CNil.
+Proof.
+  induction p using cell_size_ind. intros seen Hp.
+  destruct p; try (simpl in Hp; discriminate); auto.
+  simpl. destruct (starts_with_ell ell p2) eqn:Es.
+  - destruct p2; simpl in Es; try discriminate.
+    apply pat_ok_ell in Hp; auto. destruct Hp as (_ & _ & Hd).
+    simpl. eapply H; [|exact Hd]. simpl. lia.
+  - apply pat_ok_plain in Hp; auto. destruct Hp as [_ Hd].
+    eapply H; [|exact Hd]. simpl. lia.
+Qed.
+
+Lemma pat_ok_chain_len : forall p seen, pat_ok lits ell seen p = true -> chain_len p = length (elems p).
+Proof.
+  induction p using cell_size_ind. intros seen Hp.
+  destruct p; try (simpl in Hp; discriminate); auto.
+  simpl. f_equal. destruct (starts_with_ell ell p2) eqn:Es.
+  - destruct p2; simpl in Es; try discriminate.
+    apply pat_ok_ell in Hp; auto. destruct Hp as (_ & _ & Hd).
+    simpl. f_equal. eapply H; [|exact Hd]. simpl. lia.
+  - apply pat_ok_plain in Hp; auto. destruct Hp as [_ Hd].
+    eapply H; [|exact Hd]. simpl. lia.
+Qed.
+
+(* the head of the pattern iterator is not the ellipsis *)
+Lemma peek_not_ell : forall d, starts_with_ell ell d = false ->
+  (exists seen, pat_ok lits ell seen d = true) -> peek_is ell (elems d) = false.
+Proof.
+  intros d Hs [seen Hp]. destruct d; try (simpl in Hp; discriminate); auto.
+Qed.
+
+(* ---- one iteration of the loop body against the specification of the element *)
+Lemma loop_step : forall rec e es' pit cur in_ell env a pit',
+  pm_select in_ell pit cur (length es') = SelPattern a pit' ->
+  elem_ok a = true ->
+  (is_pair a = true -> rec a e env = res env (smatch' a e)) ->
+  pm_loop' rec (e :: es') pit cur in_ell env =
+  match smatch' a e with
+  | Some se => pm_loop' rec es' pit' a (peek_is ell pit') (env ++ flat se)
+  | None => Ok None
+  end.
+Proof.
+  intros rec e es' pit cur in_ell env a pit' Hsel Hok Hrec.
+  cbn [pm_loop]. rewrite Hsel.
+  destruct a; try (simpl in Hok; discriminate);
+    try (cbn [smatch]; destruct (cell_eqb _ e); simpl; rewrite ?app_nil_r; reflexivity).
+  - (* nested list pattern *)
+    rewrite Hrec by reflexivity. unfold res. destruct (smatch' (CPair a1 a2) e); reflexivity.
+  - (* identifier *)
+    cbn [smatch]. unfold tr_is_literal, s_is_lit, s_is_under.
+    destruct (mem_cell (CSym s) lits).
+    + destruct (cell_eqb (CSym s) e); simpl; rewrite ?app_nil_r; reflexivity.
+    + destruct (cell_eqb (CSym s) UNDERSCORE); simpl; rewrite ?app_nil_r; reflexivity.
+Qed.
+
+Lemma loop_sel_eq : forall rec e es' p1 c1 i1 p2 c2 i2 env,
+  pm_select i1 p1 c1 (length es') = pm_select i2 p2 c2 (length es') ->
+  pm_loop' rec (e :: es') p1 c1 i1 env = pm_loop' rec (e :: es') p2 c2 i2 env.
+Proof. intros. cbn [pm_loop]. rewrite H. reflexivity. Qed.
+
+Lemma flat_app : forall a b, flat (a ++ b) = flat a ++ flat b.
+Proof. intros. unfold flat. apply flat_map_app. Qed.
+
+(* ---- a pattern variable as ellipsis sub-pattern *)
+Lemma var_facts : forall a, f_is_var lits ell a = true ->
+  is_symbol a = true /\ s_is_lit lits a = false /\ s_is_ell ell a = false /\ s_is_under a = false.
+Proof.
+  unfold f_is_var. intros a H.
+  apply andb_prop in H. destruct H as [H H4]. apply andb_prop in H. destruct H as [H H3].
+  apply andb_prop in H. destruct H as [H1 H2].
+  repeat split; auto; apply negb_true_iff; assumption.
+Qed.
+
+Lemma smatch_var : forall a f, f_is_var lits ell a = true -> smatch' a f = Some [(a, BOne f)].
+Proof.
+  intros a f H. destruct (var_facts _ H) as (Hs & Hl & He & Hu).
+  destruct a; simpl in Hs; try discriminate. cbn [smatch]. rewrite Hl, Hu. reflexivity.
+Qed.
+
+Lemma pvars_var : forall a, f_is_var lits ell a = true -> pvars lits ell a = [a].
+Proof.
+  intros a H. destruct (var_facts _ H) as (Hs & Hl & He & Hu).
+  destruct a; simpl in Hs; try discriminate. cbn [pvars]. rewrite Hl, He, Hu. reflexivity.
+Qed.
+
+Lemma all_some_var : forall a items, f_is_var lits ell a = true ->
+  all_some (map (smatch' a) items) = Some (map (fun f => [(a, BOne f)]) items).
+Proof.
+  intros a items H. induction items; simpl; auto.
+  rewrite smatch_var by assumption. rewrite IHitems. reflexivity.
+Qed.
+
+Lemma collect_var : forall a items, is_symbol a = true ->
+  collect [a] (map (fun f => [(a, BOne f)]) items) = [(a, BMany (map BOne items))].
+Proof.
+  intros a items Hs. unfold collect. simpl. f_equal. f_equal. f_equal.
+  rewrite map_map. apply map_ext. intros f. simpl. rewrite cell_eqb_sym_refl by assumption. reflexivity.
+Qed.
+
+Lemma flat_var_many : forall a items, flat [(a, BMany (map BOne items))] = map (pair a) items.
+Proof.
+  intros. unfold flat. simpl. rewrite app_nil_r.
+  induction items; simpl; auto. f_equal. exact IHitems.
+Qed.
+
+Definition rec_ok (rec : cell -> cell -> bindings -> out (option bindings)) (n : nat) : Prop :=
+  forall q e env, is_pair q = true -> (S (car_depth q) <= n)%nat ->
+    pat_ok lits ell false q = true ->
+    (is_list e || negb (is_pair e)) = true -> use_ok ell q (elems e) = true ->
+    rec q e env = res env (smatch' q e).
+
+(* ---- inside the ellipsis: the `len() == len() + 2` switch *)
+Lemma loop_B : forall rec a e d',
+  s_is_ell ell e = true -> f_is_var lits ell a = true -> pat_ok lits ell true d' = true ->
+  (forall es cur env, use_ok ell d' es = true ->
+     pm_loop' rec es (elems d') cur false env = res env (smatch' d' (new_list es))) ->
+  forall es env,
+  (length (elems d') <= length es -> use_ok ell d' (skipn (length es - length (elems d')) es) = true)%nat ->
+  pm_loop' rec es (e :: elems d') a true env =
+  if Nat.ltb (length es) (length (elems d')) then Ok None
+  else match smatch' d' (new_list (skipn (length es - length (elems d')) es)) with
+       | Some se => Ok (Some (env ++ map (pair a) (firstn (length es - length (elems d')) es) ++ flat se))
+       | None => Ok None
+       end.
+Proof.
+  intros rec a e d' He Ha Hd HA.
+  set (k := length (elems d')).
+  induction es as [|e1 es' IH]; intros env Hu.
+  - (* the use is exhausted *)
+    cbn [pm_loop]. simpl length.
+    destruct (elems d') as [|y pit2] eqn:Ed; subst k; simpl length.
+    + unfold pm_end. simpl. assert (d' = CNil) as ->.
+      { rewrite <- (new_list_elems d') by (eapply pat_ok_proper; eauto). rewrite Ed. reflexivity. }
+      cbn [smatch]. simpl. rewrite !app_nil_r. reflexivity.
+    + unfold pm_end. cbn [tl]. simpl Nat.ltb. cbv iota.
+      assert (peek_is ell pit2 = false) as ->; [|reflexivity].
+      destruct d' as [| | | |y' d''| | | | | | | |]; simpl in Ed; try discriminate.
+      injection Ed as -> <-.
+      assert (Hd2 : pat_ok lits ell true d'' = true).
+      { cbn [pat_ok] in Hd. apply andb_prop in Hd. destruct Hd as [_ Hd].
+        destruct d''; auto. destruct (s_is_ell ell d''1) eqn:E; [|exact Hd].
+        apply andb_prop in Hd. destruct Hd as [Hd _]. apply andb_prop in Hd. destruct Hd as [Hd _]. discriminate. }
+      apply peek_not_ell; [apply pat_ok_true_no_ell; exact Hd2 | exists true; exact Hd2].
+  - (* one more element of the use *)
+    simpl length in *.
+    destruct (Nat.eqb (S k) (length es' + 2)) eqn:Esw.
+    + (* leave the ellipsis: the remaining elements are exactly the fixed tail *)
+      apply Nat.eqb_eq in Esw. assert (Hk : k = S (length es')) by lia.
+      destruct (elems d') as [|y pit2] eqn:Ed; [subst k; simpl in Hk; lia|].
+      rewrite (loop_sel_eq rec e1 es' (e :: y :: pit2) a true (y :: pit2) a false env).
+      2:{ cbn [pm_select]. simpl length. subst k. simpl length in *.
+          replace (Nat.eqb (S (S (length pit2))) (length es' + 2)) with true by (symmetry; apply Nat.eqb_eq; lia).
+          reflexivity. }
+      rewrite HA.
+      2:{ specialize (Hu ltac:(lia)). replace (S (length es') - k)%nat with 0%nat in Hu by lia. exact Hu. }
+      replace (Nat.ltb (S (length es')) k) with false by (symmetry; apply Nat.ltb_ge; lia).
+      replace (S (length es') - k)%nat with 0%nat by lia. simpl skipn. simpl firstn. simpl map.
+      unfold res. destruct (smatch' d' (new_list (e1 :: es'))); reflexivity.
+    + (* stay: the element belongs to the ellipsis variable *)
+      apply Nat.eqb_neq in Esw.
+      rewrite (loop_step rec e1 es' (e :: elems d') a true env a (e :: elems d')).
+      2:{ cbn [pm_select]. simpl length. fold k.
+          replace (Nat.eqb (S k) (length es' + 2)) with false by (symmetry; apply Nat.eqb_neq; lia). reflexivity. }
+      2:{ destruct (var_facts _ Ha) as (Hs & _ & Hne & _). destruct a; simpl in Hs; try discriminate.
+          change (negb (s_is_ell ell (CSym s)) = true). rewrite Hne. reflexivity. }
+      2:{ destruct (var_facts _ Ha) as (Hs & _). destruct a; simpl in Hs; try discriminate. }
+      rewrite smatch_var by assumption.
+      assert (peek_is ell (e :: elems d') = true) as -> by exact He.
+      rewrite IH.
+      2:{ intros Hle. specialize (Hu ltac:(lia)).
+          replace (S (length es') - k)%nat with (S (length es' - k)) in Hu by lia. exact Hu. }
+      destruct (Nat.ltb (length es') k) eqn:El.
+      * apply Nat.ltb_lt in El. replace (Nat.ltb (S (length es')) k) with true by (symmetry; apply Nat.ltb_lt; lia).
+        reflexivity.
+      * apply Nat.ltb_ge in El. replace (Nat.ltb (S (length es')) k) with false by (symmetry; apply Nat.ltb_ge; lia).
+        replace (S (length es') - k)%nat with (S (length es' - k)) by lia.
+        simpl skipn. simpl firstn. simpl map.
+        destruct (smatch' d' (new_list (skipn (length es' - k) es'))); [|reflexivity].
+        simpl flat. rewrite <- !app_assoc. reflexivity.
+Qed.
+End MatchProofs.
